@@ -242,6 +242,15 @@ def negative_sierra_templates(out_dir):
                                          "verif::f@0([0]: BoxF, [1]: felt252) -> (felt252);", 7).replace("libfunc one =", "libfunc store_temp_box = store_temp<BoxF>;\nlibfunc one ="),
     }
     progs.update(refs)
+    # an ap-relative temporary pushed out of the 16-bit offset range by ONE known ap change of more than 2^15 cells (a
+    # call of a function that stores a 16384-cell value twice): must be refused with "Offset overflow", not wrapped around
+    chain = "type T0 = felt252;\n" + "".join("type T%d = Struct<ut@verif::T%d, T%d, T%d>;\n" % (k, k, k - 1, k - 1) for k in range(1, 15))
+    progs["ref_offset_overflow_by_one_big_call"] = (
+        chain + "libfunc store_f = store_temp<T0>;\nlibfunc store_big = store_temp<T14>;\nlibfunc drop_big = drop<T14>;\nlibfunc dup_big = dup<T14>;\n"
+        "libfunc call_g = function_call<user@verif::g>;\n"
+        "store_f([1]) -> ([2]);\nstore_big([0]) -> ([0]);\ncall_g([0]) -> ();\nstore_f([2]) -> ([2]);\nreturn([2]);\n"
+        "dup_big([0]) -> ([0], [1]);\nstore_big([0]) -> ([0]);\ndrop_big([0]) -> ();\nstore_big([1]) -> ([1]);\ndrop_big([1]) -> ();\nreturn();\n\n"
+        "verif::f@0([0]: T14, [1]: T0) -> (T0);\nverif::g@5([0]: T14) -> ();\n")
     for f in glob.glob(os.path.join(out_dir, "n_*.sierra")):
         os.unlink(f)
     for k, v in progs.items():
